@@ -321,4 +321,60 @@ example : reported 10 [97, 98, 10, 99, 100] 3 = (2, 0) ∧ lineCount 10 [97, 98,
 example : (windows 2 (tokenize (fun (st : Unit) (l : List Nat) => (st, if l.isEmpty then none else some l)) (fun n => n == 2) () [[1], [2], [], [3], [4]])).map
     (fun w => (w.start, w.stop)) = [(1, 4), (4, 5)] := by decide
 
+/-! ## Splitting text into lines -/
+
+theorem splitRaw_ne_nil : (t : List Char) → splitRaw t ≠ []
+  | [] => by simp [splitRaw]
+  | c :: r => by
+    unfold splitRaw
+    split <;> simp_all
+    all_goals (split <;> simp_all)
+
+theorem splitRaw_cons_other (c : Char) (r : List Char) (h1 : c ≠ '\n') (h2 : c ≠ '\r') :
+    splitRaw (c :: r) = match splitRaw r with
+      | h :: t => (c :: h) :: t
+      | [] => [[c]] := by
+  rw [splitRaw.eq_def]
+  split
+  · simp_all
+  · simp_all
+  · simp_all
+  · simp_all
+  · rename_i heq
+    injection heq with h3 h4
+    subst h3 h4
+    rfl
+
+/-- without carriage returns the lines are exactly the `\n`-separated pieces the coordinate model counts rows by -/
+theorem splitRaw_no_cr : (t : List Char) → '\r' ∉ t → splitRaw t = splitOn '\n' t
+  | [], _ => by simp [splitRaw, splitOn]
+  | c :: r, h => by
+    have hc : c ≠ '\r' := fun e => h (by simp [e])
+    have hr : '\r' ∉ r := fun m => h (List.mem_cons_of_mem _ m)
+    have ih := splitRaw_no_cr r hr
+    by_cases hn : c = '\n'
+    · subst hn; simp [splitRaw, splitOn, ih]
+    · rw [splitRaw_cons_other c r hn hc, ih]
+      simp only [splitOn, hn, if_false]
+      cases splitOn '\n' r <;> rfl
+
+theorem splitOn_length_cons (nl c : α) (r : List α) (h : c ≠ nl) : (splitOn nl (c :: r)).length = (splitOn nl r).length := by
+  simp only [splitOn, h, if_false]
+  cases hs : splitOn nl r with
+  | nil => exact absurd hs (splitOn_ne_nil nl r)
+  | cons x y => simp
+
+/-- **a character that is not a line end never changes the number of lines, wherever it is inserted** (form feed, vertical
+    tab, NEL, LINE SEPARATOR … are such characters for every consumer but `str.splitlines`) -/
+theorem insert_keeps_line_count (nl c : α) (h : c ≠ nl) : (a b : List α) →
+    (splitOn nl (a ++ c :: b)).length = (splitOn nl (a ++ b)).length
+  | [], b => by simpa using splitOn_length_cons nl c b h
+  | x :: a, b => by
+    have ih := insert_keeps_line_count nl c h a b
+    by_cases hx : x = nl
+    · simp [splitOn, hx, ih]
+    · simp only [List.cons_append, splitOn_length_cons nl x _ hx, ih]
+
+example : splitLines "a\x0cb\nc d\r\ne\x85f\rg\n".toList = ["a\x0cb".toList, "c d".toList, "e\x85f".toList, "g".toList] := by decide
+
 end ThaiLintModel.C12
